@@ -1,10 +1,10 @@
 #!/bin/bash
-# usage: confirm_seed.sh <PROP>   -- confirms every seed in /tmp/wt_<PROP>/seed_out/<n>: applies, builds, ctest, demo fails;
+# usage: confirm_seed.sh <PROP> [worktree-suffix] [number-offset]  -- confirms every seed in /tmp/wt_<PROP>/seed_out/<n>: applies, builds, ctest, demo fails;
 # reverts, rebuilds, demo passes.  Confirmed seeds are copied to /verif/seeded/<PROP>-<n>/ with meta.json.
-P=$1; WT=/tmp/wt_$P; cd $WT || exit 2
+P=$1; SUF=$2; OFF=${3:-0}; WT=/tmp/wt_$P$SUF; cd $WT || exit 2
 git checkout -q -- . 
 for d in seed_out/*/; do
-  n=$(basename $d); out=/verif/seeded/$P-$n; log=/tmp/confirm_$P-$n.log; : > $log
+  n=$(( $(basename $d) + OFF )); out=/verif/seeded/$P-$n; log=/tmp/confirm_$P-$n.log; : > $log
   [ -f $d/patch.diff ] || continue
   git apply --check $d/patch.diff >>$log 2>&1 || { echo "$P-$n: patch does not apply"; continue; }
   git apply $d/patch.diff
